@@ -11,7 +11,9 @@
 //   patch <off> <hex>              overwrite bytes (ignored past the end)
 //   addrpatch <off> <width> <k>    write (0 - address_of_scanned_data - k) as a little-endian <width>-byte value:
 //                                  makes `data + value` land k bytes below 2^64 (witness of is_valid_ptr_refuted)
-//   scan <ruleset> <R|L> <timeout> place the working copy Right-aligned before / Left-aligned after a guard page, scan
+//   append <hex>                   append bytes to the working copy
+//   scan <ruleset> <R|L|H> <timeout> place the working copy Right-aligned before / Left-aligned after a guard page, or (H) in an
+//                                  exact-size heap object (ASan redzones on both sides), scan
 //                                  prints "scan rc=<rc> matches=<n> of=<rules> place=<R|L> size=<n>"
 // at the end of a case "leakcheck <n>".
 #include "hcommon.h"
@@ -106,6 +108,15 @@ static void run_case(void* arg, FILE* out)
       for (size_t k = 0; k < n; k++) if (off + k < wlen) work[off + k] = b[k];
       free(b);
     }
+    else if (!strncmp(l, "append ", 7))
+    {
+      size_t n;
+      uint8_t* b = h_unhex(l + 7, &n);
+      work = (uint8_t*) realloc(work, wlen + n + 1);
+      memcpy(work + wlen, b, n);
+      wlen += n;
+      free(b);
+    }
     else if (!strncmp(l, "addrpatch ", 10))
     {
       char* e;
@@ -123,6 +134,15 @@ static void run_case(void* arg, FILE* out)
       for (int k = 0; k < nrulesets; k++) if (!strcmp(rulesets[k].name, rs)) f = k;
       if (f < 0 || rulesets[f].rules == NULL) { fprintf(out, "error no ruleset %s\n", rs); continue; }
       PLACED pl;
+      if (work != NULL && plc[0] == 'H')
+      {
+        // exact-size heap object: any access outside [p, p+wlen) hits an ASan redzone
+        pl.region = NULL;
+        pl.region_len = 0;
+        pl.p = (uint8_t*) malloc(wlen ? wlen : 1);
+        memcpy(pl.p, work, wlen);
+      }
+      else
       if (work == NULL || place(work, wlen, plc[0] == 'R', &pl) != 0) { fprintf(out, "error place\n"); continue; }
       for (int a = 0; a < nap; a++)
       {
@@ -142,7 +162,7 @@ static void run_case(void* arg, FILE* out)
       }
       fprintf(out, "scan rc=%d matches=%d of=%d place=%c size=%zu\n", rc, matches, rulesets[f].nrules, plc[0], wlen);
       fflush(out);
-      munmap(pl.region, pl.region_len);
+      if (pl.region) munmap(pl.region, pl.region_len); else free(pl.p);
     }
     else
       fprintf(out, "error unknown command %.20s\n", l);
